@@ -592,6 +592,8 @@ static int data_event(runctx *x, int hk, htp_tx_data_t *d, int side, int is_body
             /* raw header/trailer data: only required not to follow TRANSACTION_COMPLETE (checked in on_tx_event);
              * position relative to the phase hooks is recorded, not judged (DESIGN.md C05) */
             if (t->rank[side] >= RK_COMPLETE) t->raw_out_of_window++;
+            /* ... but a side's raw data belongs to that side's message: none of it may arrive after the side's COMPLETE callback */
+            if (t->complete_cb[side] && !x->cb_failed && x->c->cfg[CF_STRICT_RAW]) { CHECK(x); viol_tx(x, t, "C05", side ? "res_raw_data_after_complete" : "req_raw_data_after_complete", hx_hook_name[hk]); }
             int ri = side * 2 + ((hk == HK_REQUEST_TRAILER_DATA || hk == HK_RESPONSE_TRAILER_DATA) ? 1 : 0);
             if (d->data != NULL) { t->raw_hash[ri] = hx_hash(d->data, d->len, t->raw_hash[ri]); t->raw_len[ri] += d->len; }
         }
